@@ -187,6 +187,17 @@ func (p *Program) Harness(pkgPath, name string) (*ssa.Function, error) {
 
 var _ sync.Map
 
+// VERIF_REPO (debug / mutant evaluation only): analyse a scratch COPY of the repository instead of /repo.
+// The registered commands never set it; `check` refuses to write evidence when it is set.
+func init() {
+	if r := os.Getenv("VERIF_REPO"); r != "" {
+		for k, m := range Modules {
+			m.Dir = r + strings.TrimPrefix(m.Dir, "/repo")
+			Modules[k] = m
+		}
+	}
+}
+
 // SolverArgvFor exposes the solver command line (used by the solver-diff step).
 func SolverArgvFor(name string, timeoutMs int) []string {
 	switch name {
